@@ -51,6 +51,12 @@ PosTable(inp) ==
 
 PosOf(ptab, k) == <<ptab[k + 1][1], ptab[k + 1][2]>>
 
+(* Incremental form used by the token monitor: walk a piece of text from a  *)
+(* position triple; atStart = the piece begins at offset 0 of the input.    *)
+Advance(p, txt, atStart) ==
+  LET F[k \in 0..Len(txt)] == IF k = 0 THEN p ELSE PosStep(F[k - 1], txt[k], atStart /\ k = 1)
+  IN F[Len(txt)]
+
 PosLE(a, b) == a[1] < b[1] \/ (a[1] = b[1] /\ a[2] <= b[2])
 
 (***************************************************************************)
@@ -78,18 +84,20 @@ PrefixRun(p, atStart) ==
 PurePrefix(p, atStart) == PrefixRun(p, atStart) \in {0, 1}
 
 (***************************************************************************)
-(* Monitor state: cur = characters consumed, depth = open indents,         *)
+(* Monitor state: cur = characters consumed, pos = position triple at cur, *)
+(* depth = open indents,                                                   *)
 (* lay = <<>> or <<pos>> of the pending zero-width layout tokens,          *)
 (* ended = ENDMARKER seen.                                                 *)
 (***************************************************************************)
-InitSt == [cur |-> 0, depth |-> 0, lay |-> <<>>, ended |-> FALSE]
+InitSt == [cur |-> 0, pos |-> <<1, 0, FALSE>>, depth |-> 0, lay |-> <<>>, ended |-> FALSE]
 
 (* The first clause of C09 that token tok = [t, s, p, l, c] breaks in state *)
 (* st, or "ok".                                                            *)
-Clause(inp, ptab, st, tok) ==
+Clause(inp, st, tok) ==
   LET np == Len(tok.p)
       ns == Len(tok.s)
-      here == PosOf(ptab, st.cur)
+      here == <<st.pos[1], st.pos[2]>>
+      afterp == Advance(st.pos, tok.p, st.cur = 0)
   IN
   IF st.ended THEN "OneEndmarker:token-after-ENDMARKER"
   ELSE IF tok.t \notin TokenTypes THEN "TokenType"
@@ -104,7 +112,7 @@ Clause(inp, ptab, st, tok) ==
          ELSE IF tok.t = "DEDENT" /\ st.depth = 0 THEN "Balanced:dedent-below-zero"
          ELSE IF tok.t = "ERROR_DEDENT" /\ st.depth = 0 THEN "Balanced:error-dedent-at-zero"
          ELSE "ok"
-  ELSE IF <<tok.l, tok.c>> # PosOf(ptab, st.cur + np) THEN "TruePos:start"
+  ELSE IF <<tok.l, tok.c>> # <<afterp[1], afterp[2]>> THEN "TruePos:start"
   ELSE IF st.lay # <<>> /\ st.lay[1] # <<tok.l, tok.c>> THEN "TruePos:layout-not-at-next-token"
   ELSE IF tok.t = "ENDMARKER" /\ st.cur + np + ns # Len(inp) THEN "OneEndmarker:input-left"
   ELSE IF tok.t = "ENDMARKER" /\ ns # 0 THEN "OneEndmarker:nonempty"
@@ -113,6 +121,7 @@ Clause(inp, ptab, st, tok) ==
 
 After(st, tok) ==
   [cur   |-> st.cur + Len(tok.p) + Len(tok.s),
+   pos   |-> Advance(Advance(st.pos, tok.p, st.cur = 0), tok.s, st.cur = 0 /\ tok.p = <<>>),
    depth |-> IF tok.t = "INDENT" THEN st.depth + 1
              ELSE IF tok.t = "DEDENT" THEN st.depth - 1 ELSE st.depth,
    lay   |-> IF tok.t \in LayoutTypes THEN << <<tok.l, tok.c>> >> ELSE <<>>,
